@@ -77,6 +77,10 @@ func main() {
 			ids = []string{"C10"}
 			specs["C10"] = &PropSpec{ID: "C10", Rules: []func(*Ctx){ruleMemoKeyPart, ruleMemoScalarKey, ruleCursorImage, ruleBufferReuse}}
 		}
+		if os.Getenv("HL_RULESET") == "round14e" {
+			ids = []string{"C10"}
+			specs["C10"] = &PropSpec{ID: "C10", Rules: []func(*Ctx){ruleRMW, ruleBuilderMeasure}}
+		}
 		if os.Getenv("HL_RULESET") == "round14c" {
 			ids = []string{"C10"}
 			specs["C10"] = &PropSpec{ID: "C10", Rules: []func(*Ctx){ruleLoopCensus}}
